@@ -184,7 +184,9 @@ def draw {G : Type} (width : G → Int) (m : TI G) (prompt : List G) (winW : Int
   else match promptLoop width winW prompt 0 with
   | none => .early m
   | some col =>
-    match scrollLoop width m.content m.cursor col winW (m.content.length + 2) m.offset with
+    -- F117 fix: `if widthToCursor(chars, len(chars), 0)+col+scrolloff < winW { m.offset = 0 }`
+    let off0 := if widthToCursor width m.content.length 0 m.content 0 0 + col + 4 < winW then 0 else m.offset
+    match scrollLoop width m.content m.cursor col winW (m.content.length + 2) off0 with
     | none => .hang
     | some off =>
       let off := if m.cursor - 4 - off < 0 then m.cursor - 4 else off
